@@ -2,6 +2,7 @@
 from __future__ import annotations
 
 import copy
+import json
 from typing import Any, Dict, List, Optional, Tuple
 
 from .build import ALWAYS_VID, DEFAULT_NONE_VID, ISDICT_VID, NOTBLANK_PID
@@ -367,6 +368,9 @@ class VGen(Gen):
         if self.chance(0.3):
             return self.atom(self.rng.choice(["int", "str", "none"]))
         x = self.conform(v, 0)
+        if '"kind": 0' in json.dumps(x):
+            # plain-class instances compare by identity: a default holding one cannot be described by value
+            return self.atom(self.rng.choice(["int", "str"]))
         return strip_oids(x)
 
     def gen_dataclass(self, depth: int, hashable: bool = False) -> dict:
